@@ -104,3 +104,28 @@ Proof. exact @convex_vsum_map. Qed.
 Theorem C07_range_total_is_affine : forall l (x y : list R) s e, length x = length y ->
   slice s e (vlerp l x y) = vlerp l (slice s e x) (slice s e y).
 Proof. exact slice_vlerp. Qed.
+
+(* ==== lossy two-way storage (Proofs/StorageProofs.v): the full statement announced above C07_sdevice_lossless_partial ======
+   any efficiency in (0,1], sustainment >= 0, c2 <= c1, c3 >= 0, bounds of either sign. The charged amount r*e^sign(r) equals
+   min(e r, r/e), which is concave; the state of charge is a non-negative combination of such terms; (min(u - D,0))^2 is
+   convex and non-increasing in u, so its composition with the state of charge is convex. *)
+From DK.Proofs Require Import StorageProofs.
+
+Theorem C07_sdevice : forall n b cb q p, 0 < sp_eff q <= 1 -> 0 <= sp_sus q -> 0 <= sp_c2 q <= sp_c1 q -> 0 <= sp_c3 q -> length b = n ->
+  convex_on (in_box_R b) (fun s => leaf_cost (Build_leafdev n b cb (KS q)) s p).
+Proof. exact convex_sdevice_lossy. Qed.
+
+Theorem C07_charged_amount_is_min_of_two_lines : forall e v, 0 < e <= 1 -> psi e v = Rmin (e * v) (v / e).
+Proof. exact psi_min. Qed.
+Theorem C07_charged_amount_concave : forall e u v l, 0 < e <= 1 -> 0 <= l <= 1 ->
+  l * psi e u + (1 - l) * psi e v <= psi e (l * u + (1 - l) * v).
+Proof. exact psi_concave. Qed.
+Theorem C07_state_of_charge_concave : forall q l (x y : list R) i, 0 < sp_eff q <= 1 -> 0 <= sp_sus q -> 0 <= l <= 1 ->
+  length x = length y -> (i < length x)%nat ->
+  l * nth i (sdev_charge q x) 0 + (1 - l) * nth i (sdev_charge q y) 0 <= nth i (sdev_charge q (vlerp l x y)) 0.
+Proof. exact sdev_charge_concave. Qed.
+Theorem C07_deep_discharge_kernel_nonincreasing : forall D u v, u <= v -> msq D v <= msq D u.
+Proof. exact msq_antitone. Qed.
+
+Example C07_sdevice_example : 0 < sp_eff ex_q <= 1 /\ 0 <= sp_sus ex_q /\ 0 <= sp_c2 ex_q <= sp_c1 ex_q /\ 0 <= sp_c3 ex_q.
+Proof. exact example_lossy_params. Qed.
